@@ -10,6 +10,7 @@ pub struct HashSet<K, S = ()> { map: HashMap<K, (), S> }
 
 impl<K: Clone, V: Clone, S> Clone for HashMap<K, V, S> { fn clone(&self) -> Self { Self { slots: self.slots.clone(), _s: PhantomData } } }
 impl<K, V, S> Default for HashMap<K, V, S> { fn default() -> Self { Self { slots: [None, None, None, None], _s: PhantomData } } }
+impl<K, V> HashMap<K, V, ()> { pub fn new() -> Self { Self::default() } }
 impl<K, V, S> HashMap<K, V, S> {
     pub fn len(&self) -> usize { let mut n = 0; let mut i = 0; while i < CAP { if self.slots[i].is_some() { n += 1; } i += 1; } n }
     pub fn is_empty(&self) -> bool { self.len() == 0 }
@@ -33,6 +34,26 @@ impl<K: Eq, V, S> HashMap<K, V, S> {
     }
     pub fn remove<Q: ?Sized + Eq>(&mut self, k: &Q) -> Option<V> where K: Borrow<Q> { match self.pos(k) { Some(i) => self.slots[i].take().map(|(_, v)| v), None => None } }
 }
+impl<K: Eq, V, S> HashMap<K, V, S> {
+    pub fn entry(&mut self, k: K) -> Entry<'_, K, V, S> { Entry { map: self, key: k } }
+}
+pub struct Entry<'a, K, V, S> { map: &'a mut HashMap<K, V, S>, key: K }
+impl<'a, K: Eq, V, S> Entry<'a, K, V, S> {
+    pub fn or_insert_with<F: FnOnce() -> V>(self, f: F) -> &'a mut V {
+        let i = match self.map.pos(&self.key) {
+            Some(i) => i,
+            None => { let mut i = 0; while i < CAP && self.map.slots[i].is_some() { i += 1; } assert!(i < CAP, "collections_fixed: capacity exceeded"); self.map.slots[i] = Some((self.key, f())); i }
+        };
+        match &mut self.map.slots[i] { Some((_, v)) => v, None => unreachable!() }
+    }
+    pub fn or_default(self) -> &'a mut V where V: Default { self.or_insert_with(V::default) }
+}
+pub struct IntoIter<K, V> { slots: [Option<(K, V)>; CAP], pos: usize }
+impl<K, V> Iterator for IntoIter<K, V> {
+    type Item = (K, V);
+    fn next(&mut self) -> Option<(K, V)> { while self.pos < CAP { let x = self.slots[self.pos].take(); self.pos += 1; if x.is_some() { return x; } } None }
+}
+impl<K, V, S> IntoIterator for HashMap<K, V, S> { type Item = (K, V); type IntoIter = IntoIter<K, V>; fn into_iter(self) -> IntoIter<K, V> { IntoIter { slots: self.slots, pos: 0 } } }
 impl<K: Eq, V, S> FromIterator<(K, V)> for HashMap<K, V, S> { fn from_iter<I: IntoIterator<Item = (K, V)>>(it: I) -> Self { let mut m = Self::default(); for (k, v) in it { m.insert(k, v); } m } }
 
 impl<K: Clone, S> Clone for HashSet<K, S> { fn clone(&self) -> Self { Self { map: self.map.clone() } } }
